@@ -125,11 +125,13 @@ Fixpoint best_rule (rules : list (kind * shape)) (inp : text) (best : option (ki
   end.
 
 (* next token: (kind, skipped?, lexeme, rest) *)
-Definition lex_one (inp : text) : option (kind * bool * text * text) :=
-  match best_rule lexer_rules inp None with
+Definition lex_one_with (rules : list (kind * shape)) (inp : text) : option (kind * bool * text * text) :=
+  match best_rule rules inp None with
   | Some (k, sh, n) => Some (k, is_skip sh, firstn n inp, skipn n inp)
   | None => None
   end.
+
+Definition lex_one (inp : text) : option (kind * bool * text * text) := lex_one_with lexer_rules inp.
 
 Inductive lresult := LOk (ts : list token) | LNoRule | LFuel.
 
